@@ -292,7 +292,37 @@ class InversionScn(Scenario):
         return t
 
 
-SCENARIOS = {"structures": Structures, "dataset": Dataset, "inversion": InversionScn}
+class Meshes(Scenario):
+    """source-plane meshes: Voronoi / Delaunay / rectangular objects with cached triangulations and derived area tables"""
+    name = "meshes"
+
+    def build(self):
+        import autoarray as aa
+
+        rng = np.random.default_rng(21)
+        b = {"verts_v": rng.random((11, 2)) * 4.0 - 2.0, "verts_d": rng.random((9, 2)) * 3.0 - 1.0,
+             "grid_r": np.stack(np.meshgrid(np.linspace(1.0, -1.0, 5), np.linspace(-2.0, 2.0, 6), indexing="ij"), axis=-1).reshape(-1, 2)}
+        self._snap(b)
+        return [("Voronoi", aa.Mesh2DVoronoi(values=b["verts_v"])), ("Delaunay", aa.Mesh2DDelaunay(values=b["verts_d"])),
+                ("Rect", aa.Mesh2DRectangular.overlay_grid(grid=b["grid_r"], shape_native=(3, 4)))], b
+
+    def table(self):
+        import autoarray as aa
+
+        tri = {"split_cross": lambda o: o.split_cross, "areas_for_split": lambda o: o.voronoi_pixel_areas_for_split,
+               "pixel_areas": lambda o: o.voronoi_pixel_areas, "edge_pixel_list": lambda o: list(o.edge_pixel_list),
+               "neighbors": lambda o: [o.neighbors.arr, o.neighbors.sizes], "values": lambda o: np.asarray(o),
+               "simplices": lambda o: o.delaunay.simplices, "extent": lambda o: tuple(o.geometry.extent)}
+        t = {"Voronoi": {"cls": aa.Mesh2DVoronoi, "reads": dict(tri, areas_for_magnification=lambda o: o.areas_for_magnification), "ops": {}},
+             "Delaunay": {"cls": aa.Mesh2DDelaunay, "reads": dict(tri), "ops": {}},
+             "Rect": {"cls": aa.Mesh2DRectangular, "reads": {"neighbors": lambda o: [o.neighbors.arr, o.neighbors.sizes], "edge_pixel_list": lambda o: list(o.edge_pixel_list),
+                                                             "values": lambda o: np.asarray(o), "extent": lambda o: tuple(o.geometry.extent)}, "ops": {}}}
+        for k, v in t.items():
+            v["cached"] = _cached(v["cls"]) & set(v["reads"])
+        return t
+
+
+SCENARIOS = {"structures": Structures, "dataset": Dataset, "inversion": InversionScn, "meshes": Meshes}
 
 
 # ---------------------------------------------------------------------------------------------------------------
@@ -524,15 +554,16 @@ def probes(seed):
     try:
         img = aa.Array2D.no_mask(values=rng.random((7, 7)) * 10 + 1, pixel_scales=0.5)
         psf = aa.Kernel2D.no_mask(values=np.array([[0.0, 1, 0], [1, 4, 1], [0, 1, 0.0]]), pixel_scales=0.5, normalize=True)
-        outs = []
-        for pre in (0, 1, 2):
-            np.random.seed(100 + pre)
-            for _ in range(pre * 3):
-                np.random.random()
-            sim = aa.SimulatorImaging(exposure_time=300.0, psf=psf, background_sky_level=0.1, add_poisson_noise_to_data=True, noise_seed=7)
-            d = sim.via_image_from(image=img)
-            outs.append(canon([d.data.array, d.noise_map.array]))
-        rec("Determinism", "SimulatorImaging(noise_seed=7).via_image_from", "seeded-simulation-independent-of-global-rng", len(set(outs)) == 1)
+        for nseed in (7, 0, 1, 2 ** 31 - 1):
+            outs = []
+            for pre in (0, 1, 2):
+                np.random.seed(100 + pre)
+                for _ in range(pre * 3):
+                    np.random.random()
+                sim = aa.SimulatorImaging(exposure_time=300.0, psf=psf, background_sky_level=0.1, add_poisson_noise_to_data=True, noise_seed=nseed)
+                d = sim.via_image_from(image=img)
+                outs.append(canon([d.data.array, d.noise_map.array]))
+            rec("Determinism", f"SimulatorImaging(noise_seed={nseed}).via_image_from", "seeded-simulation-independent-of-global-rng", len(set(outs)) == 1)
         from autoarray.dataset import preprocess
 
         outs = []
@@ -540,15 +571,20 @@ def probes(seed):
             np.random.seed(pre)
             outs.append(canon(preprocess.data_eps_with_poisson_noise_added(data_eps=img, exposure_time_map=aa.Array2D.full(fill_value=300.0, shape_native=(7, 7), pixel_scales=0.5), seed=3).array))
         rec("Determinism", "preprocess.data_eps_with_poisson_noise_added(seed=3)", "seeded-simulation-independent-of-global-rng", len(set(outs)) == 1)
-        for fname, call in [("gaussian_noise_via_shape_and_sigma_from", lambda: preprocess.gaussian_noise_via_shape_and_sigma_from(shape=(5,), sigma=2.0, seed=4)),
-                            ("data_with_gaussian_noise_added", lambda: preprocess.data_with_gaussian_noise_added(data=np.arange(5.0), sigma=0.5, seed=9)),
-                            ("data_with_complex_gaussian_noise_added", lambda: preprocess.data_with_complex_gaussian_noise_added(data=np.arange(4.0) + 1j, sigma=0.5, seed=9))]:
+        calls = []
+        for sd_ in (4, 0, 1):
+            calls += [(f"gaussian_noise_via_shape_and_sigma_from(seed={sd_})", lambda sd_=sd_: preprocess.gaussian_noise_via_shape_and_sigma_from(shape=(5,), sigma=2.0, seed=sd_)),
+                      (f"data_with_gaussian_noise_added(seed={sd_})", lambda sd_=sd_: preprocess.data_with_gaussian_noise_added(data=np.arange(5.0), sigma=0.5, seed=sd_)),
+                      (f"data_with_complex_gaussian_noise_added(seed={sd_})", lambda sd_=sd_: preprocess.data_with_complex_gaussian_noise_added(data=np.arange(4.0) + 1j, sigma=0.5, seed=sd_)),
+                      (f"data_eps_with_poisson_noise_added(seed={sd_})", lambda sd_=sd_: preprocess.data_eps_with_poisson_noise_added(
+                          data_eps=img, exposure_time_map=aa.Array2D.full(fill_value=300.0, shape_native=(7, 7), pixel_scales=0.5), seed=sd_).array)]
+        for fname, call in calls:
             outs = []
             for pre in (0, 5):
                 np.random.seed(pre)
                 np.random.random(pre)
                 outs.append(canon(np.asarray(call())))
-            rec("Determinism", f"preprocess.{fname}(seed=k)", "seeded-simulation-independent-of-global-rng", len(set(outs)) == 1)
+            rec("Determinism", f"preprocess.{fname}", "seeded-simulation-independent-of-global-rng", len(set(outs)) == 1)
     except Exception as e:
         rec("Determinism", "seeded noise helpers", "no-exception-in-determinism-probe", False, note=f"{type(e).__name__}: {str(e)[:80]}")
     # factories return independent objects: scribbling on what a first call returned (the caller's own object) must not
@@ -697,10 +733,10 @@ def random_events(rng, table, base_types, length, max_objs):
 def run(ctx):
     quick = ctx.quick
     rng = np.random.default_rng(ctx.seed)
-    nsim = {"structures": 150, "dataset": 40, "inversion": 60} if quick else {"structures": 12000, "dataset": 2000, "inversion": 4000}
-    nrand = {"structures": 20, "dataset": 6, "inversion": 10} if quick else {"structures": 1500, "dataset": 300, "inversion": 600}
+    nsim = {"structures": 150, "dataset": 40, "inversion": 60, "meshes": 40} if quick else {"structures": 12000, "dataset": 2000, "inversion": 4000, "meshes": 1500}
+    nrand = {"structures": 20, "dataset": 6, "inversion": 10, "meshes": 6} if quick else {"structures": 1500, "dataset": 300, "inversion": 600, "meshes": 200}
     ctx.bounds = {"scenarios": list(SCENARIOS), "simulated_behaviours": nsim, "random_histories": nrand, "simulation_depth": 12,
-                  "random_history_length": {"structures": 60, "dataset": 25, "inversion": 50}}
+                  "random_history_length": {"structures": 60, "dataset": 25, "inversion": 50, "meshes": 30}}
     jobs = []
     for name, cls in SCENARIOS.items():
         scn = cls()
